@@ -3,7 +3,7 @@
 //!
 //! * `sched_point(label)`  - labelled schedule points (optional sleep / trace)
 //! * `tt_gate()`           - empties the transposition table while caching is switched off
-//! * `tt_inserted(..)`     - observer of transposition-table writes
+//! * `tt_inserted(..)`     - observer of transposition-table writes (recorder, optional `@@TT` trace)
 
 use std::sync::atomic::{AtomicBool, AtomicU64, Ordering};
 use std::sync::{Mutex, OnceLock};
@@ -152,6 +152,12 @@ pub fn tt_record_take() -> Vec<TtEvent> {
         .unwrap_or_default()
 }
 
+/// `RCE_VERIF_TTTRACE=1` writes one `@@TT` line per table write to stderr (engine sessions).
+fn tt_trace() -> bool {
+    static ON: OnceLock<bool> = OnceLock::new();
+    *ON.get_or_init(|| std::env::var("RCE_VERIF_TTTRACE").is_ok_and(|v| v == "1"))
+}
+
 /// Called after a write to the table at `site`.
 pub fn tt_inserted(
     site: &'static str,
@@ -160,6 +166,21 @@ pub fn tt_inserted(
     node_budget: Option<u64>,
     running: bool,
 ) {
+    if tt_trace() {
+        let entry = TRANSPOSITION_TABLE
+            .read()
+            .expect("Transposition table is poisoned! Unable to read entry.")
+            .get(&key)
+            .copied();
+        let entry = entry.map_or_else(
+            || "none".to_string(),
+            |e| format!("{} {} {:?} {}", e.score, e.depth, e.bound, e.best_ply),
+        );
+        eprintln!(
+            "@@TT {:?} {site} {key} n={nodes} b={node_budget:?} r={running} | {entry}",
+            std::thread::current().id()
+        );
+    }
     let mut guard = TT_LOG.lock().unwrap_or_else(std::sync::PoisonError::into_inner);
     let Some(log) = guard.as_mut() else {
         return;
